@@ -15,6 +15,8 @@ def main() -> int:
     ap.add_argument("--tier", default=os.environ.get("VERIF_TIER", "quick"), choices=["quick", "thorough"])
     ap.add_argument("--replay", default=None)
     a = ap.parse_args()
+    if a.replay:
+        os.environ["VERIF_REPLAYING"] = "1"      # keep the replay files of earlier runs
     warnings.simplefilter("ignore")  # checks that care about OdxWarning record them explicitly
     try:
         mod = importlib.import_module(f"harness.checks.{a.prop.lower()}")
